@@ -74,6 +74,55 @@ def _reach_exit_avoiding_edges(fn, start_blocks, avoid_blocks, exempt_blocks, cu
     return None
 
 
+def revwindow(run, fx, rule='REVERSEPAIR'):
+    """Segment::justify narrows m_first/m_last to the line and then (through positionSlots) may call reverseSlots, which walks
+    to the END OF THE LIST (`while (curr)`).  Inside reverseSlots the value of m_last is therefore not "the last slot of the
+    list": it may be read for the trivial-run test `m_first == m_last` only.  (Replayed on the pinned tree: with the
+    `d ? d->prev() : m_last` fallback, "ab cd e<U+0301>" shaped with gr_nobidi and justified with pLast = the second slot lost 5 of
+    its 8 slots, and a second text hung -- fixed in /repo, see DESIGN.md section 7, F10.)"""
+    rs = fx.one('graphite2::Segment::reverseSlots')
+    j = fx.one('graphite2::Segment::justify')
+    ps = fx.one('graphite2::Segment::positionSlots')
+    chain = bool(calls_in(j, 'graphite2::Segment::positionSlots')) and bool(calls_in(ps, 'graphite2::Segment::reverseSlots'))
+    if not chain:
+        run.held(rule, 'reverseSlots independent of m_last', rs.where(), 'justify no longer reaches reverseSlots through positionSlots: nothing to require', False)
+        return
+    par = rs.parents()
+    bad = []
+    nreads = 0
+    for _, e in rs.elements():
+        if e['k'] == 'MemberExpr' and e.get('d') == 'graphite2::Segment::m_last':
+            ok = False
+            cur = e['i']
+            for _ in range(4):
+                ups = par.get(cur) or []
+                if not ups:
+                    break
+                p_ = rs.nodes[ups[0]]
+                if p_['k'] == 'BinaryOperator' and p_['op'] == '=' and p_['c'][0] == cur:
+                    ok = True           # a write of m_last, not a read
+                    break
+                if p_['k'] == 'BinaryOperator' and p_['op'] in ('==', '!='):
+                    other = p_['c'][1] if rs.strip_all_casts(p_['c'][0]).get('i') == e['i'] or p_['c'][0] == cur else p_['c'][0]
+                    if rs.render(rs.strip_all_casts(other)) == 'this->m_first':
+                        ok = True       # the 0/1-slot test
+                    break
+                if p_['k'].endswith('CastExpr') or p_['k'] == 'ParenExpr':
+                    cur = p_['i']
+                    continue
+                break
+            nreads += 1
+            if not ok:
+                bad.append(e)
+    if bad:
+        run.violated(rule, 'reverseSlots independent of m_last', rs.loc(bad[0]), 'reverseSlots uses the value of m_last (beyond the `m_first == m_last` test) although it runs to the '
+                     'end of the list and Segment::justify calls it, through positionSlots, while m_last is narrowed to the end of the LINE: '
+                     'the slot it takes for the list end is the line end, links of slots in the middle of the stream are overwritten '
+                     '(slots drop out of the stream; walking it may not terminate)')
+    else:
+        run.held(rule, 'reverseSlots independent of m_last', rs.where(), 'm_last is only compared with m_first and assigned (%d occurrences)' % nreads)
+
+
 def dirflag(run, fx, rule):
     rs = fx.one('graphite2::Segment::reverseSlots')
     # every write of m_dir in reverseSlots: `m_dir = m_dir ^ K` or `m_dir ^= K` with a constant K
@@ -210,6 +259,7 @@ def justify_rules(run, fx):
                          'in reversed order and m_first/m_last swapped')
         # the operands of the condition are not written between the two tests (m_dir bit 0, silf fields)
     dirflag(run, fx, 'REVERSEPAIR')
+    revwindow(run, fx, 'REVERSEPAIR')
     # ---- LINEENDPAIR
     adds = sorted(calls_in(j, 'graphite2::Segment::addLineEnd'), key=lambda e: (e['ln'], e['col']))
     dels = sorted(calls_in(j, 'graphite2::Segment::delLineEnd'), key=lambda e: (e['ln'], e['col']))
@@ -323,15 +373,22 @@ def linebreak(run, fx):
         if e.get('args') and fq in ('graphite2::Slot::next', 'graphite2::Slot::prev', 'graphite2::Slot::sibling', 'graphite2::Slot::child',
                                      'graphite2::Slot::attachTo', 'graphite2::Slot::nextSibling', 'graphite2::Slot::firstChild'):
             a = fn.strip_all_casts(e['args'][0])
-            writes.append((fn.render(fn.N(e['obj'])), fq.split('::')[-1], 0 if (a.get('v') == 0 or a['k'] in ('CXXNullPtrLiteralExpr', 'GNUNullExpr')) else fn.render(a)))
-    _, d = find_decl(fn, 'prev')
-    pinit = fn.render(fn.strip_all_casts(d['init'])) if d is not None and d.get('init') is not None else None
-    want = sorted([('prev', 'sibling', 0), ('prev', 'next', 0), ('p', 'prev', 0)])
-    if sorted(writes) == want and pinit is not None and pinit.replace(' ', '') in ('p.prev()', 'p->prev()'):
-        run.held('LINEBREAK', 'gr_slot_linebreak_before write set', fn.where(), 'prev = p->prev(); prev->sibling(0); prev->next(0); p->prev(0)')
+            obj = fn.render(fn.deref(e['obj'])).replace('->', '.').replace(' ', '')
+            writes.append((obj, fq.split('::')[-1], 0 if fn.is_null(a) else fn.render(a)))
+    pn = fn.f['params'][0]['n']
+    want = sorted([(pn + '.prev()', 'sibling', 0), (pn + '.prev()', 'next', 0), (pn, 'prev', 0)])
+    # the two writes through p->prev() must come before p->prev(NULL) changes what that expression means
+    order_ok = True
+    seq = [w for w in writes]
+    if (pn, 'prev', 0) in seq:
+        i = seq.index((pn, 'prev', 0))
+        order_ok = all(w[0] != pn + '.prev()' for w in seq[i + 1:])
+    if sorted(writes) == want and order_ok:
+        run.held('LINEBREAK', 'gr_slot_linebreak_before write set', fn.where(), 'with prev = p->prev(): prev->sibling(0); prev->next(0); p->prev(0)')
     else:
         run.violated('LINEBREAK', 'gr_slot_linebreak_before write set', fn.where(), 'gr_slot_linebreak_before must null exactly the three links across the cut '
-                     '(prev->sibling, prev->next, p->prev with prev = p->prev()): found %s, prev = %s' % (sorted(writes), pinit))
+                     '(the sibling and next links of the slot just before p, and p\'s prev link): found %s -- a different slot is cut, so slots between it '
+                     'and p stay reachable from one side only' % (sorted(writes, key=str),))
 
 
 def run(run):
